@@ -273,6 +273,12 @@ void RelayServer::handle_register(const std::shared_ptr<ClientSession>& session,
         queue_text(session, "ERROR invalid-peer\n");
         return;
     }
+    if (session->partner.lock()) {
+        // Already claimed by a connector: re-registering would make the session claimable by a
+        // second connector while the first one still holds it.
+        queue_text(session, "ERROR already-claimed\n");
+        return;
+    }
 
     remove_registration(session);
     session->peer_id = *peer;
